@@ -1,9 +1,100 @@
+(* C05 - substitution obeys the substitution lemma and the documented replacement order.
+   Statements + exact + Print Assumptions only.  Models: models/Substituter.v (tied to
+   pysmt/substituter.py + walkers/identitydag.py by harness/c05.py, exact structural equality).
+
+   FULL statement aimed at (kept visible; the proved part carries the explicit fragment):
+     subst_lemma : sym_keys s -> no_capture s t -> tc t = Some ty -> map_typed s -> wf I ->
+                   subst_mgs s t = Some t' -> eval I t' = eval (upd I s) t          (all operators)
+     the same for subst_mss, and  mgs_mss_sym : sym_keys s -> subst_mgs s t = subst_mss s t
+     interp_lemma : eval I (subst_interp p t) = eval (I with f := fun vs => eval (I + params := vs) body) t
+     subst_typed  : map_typed s -> tc t = Some ty -> subst_mgs s t = Some t' -> tc t' = Some ty
+   Proved here:
+   * the lemma for MGS (the default strategy) on the fragment [frag] (every operator except Pow,
+     array values, ToReal, BV rotate/extend; n-ary nodes with >= 2 arguments; no negation directly
+     under a negation or as a divisor) for replacement terms whose negations are Bool-valued by
+     construction ([neg_values_ok]) - C05_subst_lemma_partial;
+   * the MSS statement and mgs_mss_sym are REFUTED by the faithful model (C05_subst_lemma_mss_refuted,
+     C05_mgs_mss_sym_refuted; witness replayed on the implementation by harness/c05.py, listed in
+     known_findings.json); they hold when no replacement term is a negation
+     (C05_mgs_mss_sym_partial, C05_subst_lemma_mss_partial);
+   * bound occurrences are never replaced, both strategies (C05_bound_untouched_mgs/_mss);
+   * most-general: a key is replaced as a whole whenever the call returns (C05_mgs_key_first); the
+     call can raise below a key (C05_mgs_key_raises_witness, known finding).
+   interp_lemma and subst_typed are NOT proved: covered by the correspondence (exact structural
+   equality, create_node's type check is part of the model) and the refeval search oracle only. *)
 From Coq Require Import List ZArith Bool String.
-From PySMT.core Require Import Syntax.
-From PySMT.models Require Import Substituter.
+From PySMT.core Require Import Syntax Sem.
+From PySMT.models Require Import TypeChecker Oracles Substituter.
 From PySMT.proofs Require Import Substituter_proofs.
 Import ListNotations.
 
-Theorem C05_stub : forall t, lookup [] t = None.
-Proof. exact lookup_nil. Qed.
-Print Assumptions C05_stub.
+(* substitution lemma, most-general substitution (default), for all terms of the fragment, all
+   symbol-keyed maps satisfying the proviso, all interpretations whose Bool symbols are Boolean *)
+Theorem C05_subst_lemma_partial : forall s t I t',
+  sym_keys s -> neg_values_ok s -> frag t = true -> no_capture s t -> bool_interp I ->
+  subst_mgs s t = Some t' -> eval I t' = eval (upd I s) t.
+Proof. exact subst_lemma_partial. Qed.
+Print Assumptions C05_subst_lemma_partial.
+
+(* the same statement for the most-specific substitution is false of the faithful model *)
+Theorem C05_subst_lemma_mss_refuted :
+  exists s t t' I, sym_keys s /\ neg_values_ok s /\ frag t = true /\ no_capture s t /\ bool_interp I /\
+                   subst_mss s t = Some t' /\ eval I t' <> eval (upd I s) t.
+Proof. exact subst_lemma_mss_refuted. Qed.
+Print Assumptions C05_subst_lemma_mss_refuted.
+
+(* on symbol keys the two strategies do NOT coincide (type-correct map, node of the manager) *)
+Theorem C05_mgs_mss_sym_refuted :
+  exists s t, sym_keys s /\ canon t = true /\ (forall k v, In (k, v) s -> tc v = tc k) /\
+              subst_mgs s t <> subst_mss s t.
+Proof. exact mgs_mss_sym_refuted. Qed.
+Print Assumptions C05_mgs_mss_sym_refuted.
+
+(* occurrences bound by a quantifier are never replaced (both strategies, any interpretations):
+   an entry whose key mentions a bound variable does not affect the quantified formula *)
+Theorem C05_bound_untouched_mgs : forall p s k v fa vs b x,
+  In x vs -> In x (fv k) -> k <> T (quant_op fa vs) [b] ->
+  subst_mgs_i p ((k, v) :: s) (T (quant_op fa vs) [b]) = subst_mgs_i p s (T (quant_op fa vs) [b]).
+Proof. exact bound_untouched_mgs. Qed.
+Print Assumptions C05_bound_untouched_mgs.
+
+Theorem C05_bound_untouched_mss : forall p s k v fa vs b x,
+  In x vs -> In x (fv k) ->
+  subst_mss_i p ((k, v) :: s) (T (quant_op fa vs) [b]) = subst_mss_i p s (T (quant_op fa vs) [b]).
+Proof. exact bound_untouched_mss. Qed.
+Print Assumptions C05_bound_untouched_mss.
+
+(* the hypotheses of the lemma are satisfiable by a non-trivial instance, and the proviso matters *)
+Theorem C05_subst_lemma_example :
+  sym_keys ex_s /\ neg_values_ok ex_s /\ frag ex_t = true /\ no_capture ex_s ex_t /\ bool_interp ex_I /\
+  subst_mgs ex_s ex_t
+  = Some (T OAnd [T (OForall [("y"%string, TInt)]) [T OLt [T OPlus [ex_z; TIntC 1]; ex_y]]; ex_c]).
+Proof. exact subst_lemma_example. Qed.
+Print Assumptions C05_subst_lemma_example.
+
+(* most-general replacement: when the call returns, a key is replaced as a whole ... *)
+Theorem C05_mgs_key_first : forall p s t t' v,
+  subst_mgs_i p s t = Some t' -> lookup s t = Some v -> t' = v.
+Proof. exact mgs_key_first. Qed.
+Print Assumptions C05_mgs_key_first.
+
+(* ... but the call may raise below a key (type-correct map, node of the manager) *)
+Theorem C05_mgs_key_raises_witness :
+  exists s t v, lookup s t = Some v /\ (forall k v', In (k, v') s -> tc v' = tc k) /\ canon t = true /\
+                args_ok s t = true /\ subst_mgs s t = None.
+Proof. exact mgs_key_raises_witness. Qed.
+Print Assumptions C05_mgs_key_raises_witness.
+
+(* where the two strategies do coincide on symbol keys: no replacement term is a negation *)
+Theorem C05_mgs_mss_sym_partial : forall t s,
+  sym_keys s -> no_neg_values s -> frag t = true -> subst_mgs s t = subst_mss s t.
+Proof. exact mgs_mss_sym_partial. Qed.
+Print Assumptions C05_mgs_mss_sym_partial.
+
+(* and there the most-specific substitution obeys the lemma too *)
+Theorem C05_subst_lemma_mss_partial : forall s t I t',
+  sym_keys s -> no_neg_values s -> (forall k v, In (k, v) s -> realc_ok v) ->
+  frag t = true -> no_capture s t -> bool_interp I ->
+  subst_mss s t = Some t' -> eval I t' = eval (upd I s) t.
+Proof. exact subst_lemma_mss_partial. Qed.
+Print Assumptions C05_subst_lemma_mss_partial.
